@@ -36,7 +36,7 @@ scratch copy of `/repo`'s HEAD, the unedited test suite still passes there (196)
 0 without and non-zero with the change, and the quick check of the broken property is run against the copy
 (`MOSROMGR_SRC`).  They are kept under `seeded/<id>/` (patch.diff, demo.py, notes.md, check_result.json,
 meta.json); `tools/try_all_seeded.sh` re-runs all of them.  **All %d are caught by the quick check of the property
-they break: %d with a failing input replayed on the real code, %d (round 5: `R5A_2`, `R5B_3`, `R5D_3`) by failed
+they break: %d with a failing input replayed on the real code, %d (round 5: `R5A_2`, `R5B_3`) by failed
 obligations alone (`VIOLATION ... no-failing-input-found`, the replay file names the obligations and carries the
 solver output; the stand-in has no history / input for them yet).**  The last column says what the deductive part
 did on its own: obligations that fail on the changed source, or *tool limit* when the change moved the function
@@ -104,7 +104,7 @@ What the misses of each round exposed, and what was strengthened:
   those two clauses in the C09 check.  `R5D_3` (`RunningOrderReplace.inspect` raises on an element without text, so
   `mosromgr inspect` aborts): caught under C20 only; the CLI proof uses the caller-facing view of `inspect()`
   ("prints, never raises"), so the never-raises obligations of the 25 `inspect` bodies now carry C19 and are part
-  of the C19 check.  `R5B_4` (`ItemDelete.merge` resolves first and removes afterwards; a repeated ID raises
+  of the C19 check; the stand-in got a roReplace written without white space and with an empty element.  `R5B_4` (`ItemDelete.merge` resolves first and removes afterwards; a repeated ID raises
   `ValueError`, later IDs are never acted on): a tool limit (new loop); the stand-in reported the escaping
   built-in exception under C12 / C05 only - it now also reports it under C06 (named elements not acted on, nothing
   the library defines reported it).  `R5A_3` (`MetaDataReplace.merge` copies only the text of a childless target):
